@@ -88,7 +88,8 @@ def obs_events(chk):
                 NW = 1.5
             k = int(rng.randint(1, int(2 * NW) + 1))
             cplx = bool(rng.randint(2))
-        x = zoo.signal(rng, N, cplx, ['noise', 'tones'][rep % 2])
+        # amplitude variety: Thomson's formula and the convergence test are relative to the data variance
+        x = zoo.signal(rng, N, cplx, ['noise', 'tones'][rep % 2]) * [1.0, 1e-3, 1e3, 1e-2][rep % 4]
         nfft = int(rng.choice([N, N + 3, 2 * N]))
         ok, tv = call_guard(dpss, N, NW, k)
         if not ok:
@@ -152,6 +153,32 @@ def obs_events(chk):
             else:
                 ev.update(len_ok=False, real_nonneg=False, mean_dev=0, pre_dev=0)
             batch.add(ev, {'N': N, 'NW': NW, 'k': k, 'nfft': nfft, 'method': method, 'seed': chk.seed, 'rep': rep})
+        # the class on a second computation: after new data (same length and another length) the estimate is that
+        # of a fresh object on the new data (tapers and eigenvalues are recomputed, nothing cached is reused)
+        for method in ('eigen', 'adapt'):
+            y1 = zoo.signal(rng, N, cplx, 'noise')
+            y2 = zoo.signal(rng, N + 5, cplx, 'noise')
+            ev = {'ev': 'class', 'method': method, 'N': N, 'k': k, 'nfft': nfft, 'cplx': cplx, 'recompute': True}
+
+            def live():
+                p = MultiTapering(x.copy(), NW=NW, k=k, NFFT=nfft, method=method, scale_by_freq=False)
+                p.psd
+                out = []
+                for y in (y1, y2):
+                    p.data = y
+                    out.append(np.array(p.psd))
+                return out
+            ok1, a = call_guard(live)
+            ok2, b = call_guard(lambda: [np.array(MultiTapering(y.copy(), NW=NW, k=k, NFFT=nfft, method=method, scale_by_freq=False).psd) for y in (y1, y2)])
+            ev['raised'] = not (ok1 and ok2)
+            if ok1 and ok2:
+                ev['len_ok'] = bool(all(len(u) == len(v) for u, v in zip(a, b)))
+                ev['real_nonneg'] = bool(all(np.isrealobj(u) and np.all(u >= 0) for u in a))
+                ev['mean_dev'] = obs.q(max(zoo.rel_dev(u, v) for u, v in zip(a, b)))
+                ev['pre_dev'] = 0
+            else:
+                ev.update(len_ok=False, real_nonneg=False, mean_dev=0, pre_dev=0)
+            batch.add(ev, {'N': N, 'NW': NW, 'k': k, 'nfft': nfft, 'method': method, 'seed': chk.seed, 'rep': rep, 'recompute': True})
     obs.validate(chk, batch, 'obs-slepian', lambda ev, cl: 'C19:OBS:%s:%s:%s:%s' % (ev['ev'], ev['method'], 'complex' if ev['cplx'] else 'real', cl),
                  lambda ev, cl: 'clause "%s" fails: %s' % (cl, ev))
     chk.sample('obs-event', batch.events[0], 1)
